@@ -13,14 +13,6 @@ import (
 // that tree. Shapes are enumerated by the driver (param S); inside a shape the kinds (Choice), tags
 // (symbolic uint16, pairwise distinct), values (full width) and string contents are symbolic.
 
-func zzDistinct(tags ...uint16) {
-	for i := range tags {
-		for j := i + 1; j < len(tags); j++ {
-			zzverif.Assume(tags[i] != tags[j])
-		}
-	}
-}
-
 func zzParseAll(out []byte) types.Value {
 	v, n, err := types.ParseValue(out)
 	zzverif.Assert(err == nil, "parse-ok")
